@@ -5,6 +5,8 @@ S1  with the D24 patch: browsers iterated AFTER a listener that registers anothe
 S2  the same re-entrant call inside the PERIODIC purge's own round: safe
 S5  a browser created inside a first-round callback of the datagram that adds its PTR never reports it (created in the completion
     round it does)
+S6  a browser iterated BEFORE a listener that registers another listener with a question inside its update callback has its pending
+    Added fired by the nested completion round before the datagram's records are cached
 The harness machinery (real DNSCache / RecordManager / _ServiceBrowserBase on a stub Zeroconf, injected clock) is harness/cachecommon.py."""
 import os
 import sys
@@ -86,3 +88,25 @@ for phase in (1, 2):
     o2 = w.apply(["D", T0 + 1000, [["p", TX, 12, 1, 0, 4500, "a._x._tcp.local."]], []])
     print("   created in the %s round: callbacks for the datagram %s, for its refresh 1 s later %s, cached PTRs %s"
           % ("update" if phase == 1 else "complete", [(c[0], c[1], c[3]) for c in o["cb"]], [(c[0], c[1], c[3]) for c in o2["cb"]], w.ptr_view()))
+
+print("== S6: browser 0, then (iteration order) a listener whose update callback registers a listener with a question; an address record")
+print("       has run out unpurged; the datagram adds PTR b")
+w = world()
+w.apply(["BA", 0, T0, [TX]])
+w.apply(["D", T0, [["a", "h.local.", 1, 1, 0, 120, "0a000001"]], []])
+
+
+class Late(RecordUpdateListener):
+    def __hash__(self):
+        return 13          # after the browser (hash 7) in the set's iteration order
+
+    def async_update_records(self, zc, now, records):
+        zc.async_add_listener(w.listener(3), DNSQuestion("_other._tcp.local.", 12, 1))
+
+    def async_update_records_complete(self):
+        pass
+
+
+w.rm.async_add_listener(Late(), None)
+o = w.apply(["D", T0 + 121000, [["p", TX, 12, 1, 0, 4500, "b._x._tcp.local."]], []])
+print("   err:", o["err"], "| callbacks (browser, change, name, lookup inside add_service finds the record):", [(c[0], c[1], c[3], c[4]) for c in o["cb"]])
